@@ -1,0 +1,169 @@
+//go:build verif
+
+package index
+
+import (
+	"fmt"
+
+	"github.com/sourcegraph/zoekt"
+	"github.com/sourcegraph/zoekt/internal/ctags"
+)
+
+// Verification hooks for the scoring code (score.go, contentprovider.go). Not part of the normal build.
+
+// VerifCand is a candidateMatch as far as scoring reads it.
+type VerifCand struct {
+	FileName    bool
+	ByteOffset  uint32
+	ByteMatchSz uint32
+	ScoreWeight float64
+	Symbol      bool
+	SymbolIdx   uint32
+	Term        string // substrLowered
+}
+
+func verifCands(doc uint32, cs []VerifCand) []*candidateMatch {
+	out := make([]*candidateMatch, 0, len(cs))
+	for _, c := range cs {
+		out = append(out, &candidateMatch{
+			substrBytes: []byte(c.Term), substrLowered: []byte(c.Term), scoreWeight: c.ScoreWeight, file: doc,
+			symbolIdx: c.SymbolIdx, byteOffset: c.ByteOffset, byteMatchSz: c.ByteMatchSz, fileName: c.FileName, symbol: c.Symbol,
+		})
+	}
+	return out
+}
+
+func verifProvider(s zoekt.Searcher, doc uint32) (*indexData, *contentProvider, error) {
+	d, ok := s.(*indexData)
+	if !ok {
+		return nil, nil, fmt.Errorf("not a shard searcher: %T", s)
+	}
+	if doc >= d.numDocs() {
+		return nil, nil, fmt.Errorf("document %d out of range", doc)
+	}
+	cp := &contentProvider{id: d, stats: &zoekt.Stats{}}
+	cp.setDocument(doc)
+	return d, cp, nil
+}
+
+// VerifScoreLine is contentProvider.scoreLine on document doc of a loaded shard.
+func VerifScoreLine(s zoekt.Searcher, doc uint32, cands []VerifCand, language string, lineNumber int, opts *zoekt.SearchOptions) (float64, string, error) {
+	_, cp, err := verifProvider(s, doc)
+	if err != nil {
+		return 0, "", err
+	}
+	ls, _ := cp.scoreLine(verifCands(doc, cands), language, lineNumber, opts)
+	return ls.score, ls.debugScore, nil
+}
+
+// VerifScoreChunk is contentProvider.scoreChunk.
+func VerifScoreChunk(s zoekt.Searcher, doc uint32, cands []VerifCand, language string, opts *zoekt.SearchOptions) (float64, int, string, error) {
+	_, cp, err := verifProvider(s, doc)
+	if err != nil {
+		return 0, 0, "", err
+	}
+	cs, _ := cp.scoreChunk(verifCands(doc, cands), language, opts)
+	return cs.score, cs.bestLine, cs.debugScore, nil
+}
+
+// VerifScoreFile is indexData.scoreFile with a match tree of atomCount matching atoms.
+func VerifScoreFile(s zoekt.Searcher, doc uint32, fm *zoekt.FileMatch, atomCount int, opts *zoekt.SearchOptions) error {
+	d, _, err := verifProvider(s, doc)
+	if err != nil {
+		return err
+	}
+	known := map[matchTree]bool{}
+	mt := &andMatchTree{}
+	for i := 0; i < atomCount; i++ {
+		ch := &bruteForceMatchTree{}
+		mt.children = append(mt.children, ch)
+		known[ch] = true
+	}
+	d.scoreFile(fm, doc, mt, known, opts)
+	return nil
+}
+
+// VerifScoreFileBM25 is indexData.scoreFileBM25.
+func VerifScoreFileBM25(s zoekt.Searcher, doc uint32, fm *zoekt.FileMatch, cands []VerifCand, opts *zoekt.SearchOptions) error {
+	d, cp, err := verifProvider(s, doc)
+	if err != nil {
+		return err
+	}
+	d.scoreFileBM25(fm, doc, verifCands(doc, cands), cp, opts)
+	return nil
+}
+
+// VerifDocInfo is what the scoring of one document reads from the shard.
+type VerifDocInfo struct {
+	Content     []byte
+	FileName    []byte
+	Sections    []DocumentSection
+	Kinds       []string // ctags kind of each section ("" if the shard has no metadata for it)
+	HasKind     []bool
+	Newlines    []uint32
+	LowPriority bool
+	RepoRank    uint16
+	NumDocs     uint32
+	NumBounds   int    // len(d.boundaries)
+	TotalBytes  uint32 // d.boundaries[numDocs]
+	DocBytes    uint32 // d.boundaries[doc+1]-d.boundaries[doc]
+	Language    string
+}
+
+func VerifGetDocInfo(s zoekt.Searcher, doc uint32) (*VerifDocInfo, error) {
+	d, cp, err := verifProvider(s, doc)
+	if err != nil {
+		return nil, err
+	}
+	info := &VerifDocInfo{
+		Content:    append([]byte(nil), cp.data(false)...),
+		FileName:   append([]byte(nil), cp.data(true)...),
+		Sections:   append([]DocumentSection(nil), cp.docSections()...),
+		Newlines:   append([]uint32(nil), cp.newlines().locs...),
+		RepoRank:   d.repoMetaData[d.repos[doc]].Rank,
+		NumDocs:    d.numDocs(),
+		NumBounds:  len(d.boundaries),
+		TotalBytes: d.boundaries[d.numDocs()],
+		DocBytes:   d.boundaries[doc+1] - d.boundaries[doc],
+		Language:   d.languageMap[d.getLanguage(doc)],
+	}
+	info.LowPriority = d.isLowPriority(&zoekt.FileMatch{FileName: string(info.FileName)}, doc)
+	start := d.fileEndSymbol[doc]
+	for i := range info.Sections {
+		si := d.symbols.data(start + uint32(i))
+		if si == nil {
+			info.Kinds = append(info.Kinds, "")
+			info.HasKind = append(info.HasKind, false)
+		} else {
+			info.Kinds = append(info.Kinds, si.Kind)
+			info.HasKind = append(info.HasKind, true)
+		}
+	}
+	return info, nil
+}
+
+// VerifScoreSymbolKind is scoreSymbolKind(language, filename, sym, ParseSymbolKind(kind)).
+func VerifScoreSymbolKind(language string, filename, sym []byte, kind string) float64 {
+	return scoreSymbolKind(language, filename, sym, ctags.ParseSymbolKind(kind))
+}
+
+// VerifTfScore is tfScore.
+func VerifTfScore(k, b, L float64, f int) float64 { return tfScore(k, b, L, f) }
+
+// VerifSortMatchesByScore / VerifSortChunkMatchesByScore / VerifBoostNovelExtension are the ordering functions.
+func VerifSortMatchesByScore(ms []zoekt.LineMatch)       { sortMatchesByScore(ms) }
+func VerifSortChunkMatchesByScore(ms []zoekt.ChunkMatch) { sortChunkMatchesByScore(ms) }
+func VerifBoostNovelExtension(ms []zoekt.FileMatch, boostOffset int, minScoreRatio float64) {
+	boostNovelExtension(ms, boostOffset, minScoreRatio)
+}
+
+// VerifScoreConstants returns the scoring constants by name.
+func VerifScoreConstants() map[string]float64 {
+	return map[string]float64{
+		"scorePartialWordMatch": scorePartialWordMatch, "scoreWordMatch": scoreWordMatch, "scoreBase": scoreBase,
+		"scorePartialBase": scorePartialBase, "scoreSymbol": scoreSymbol, "scorePartialSymbol": scorePartialSymbol,
+		"scoreKindMatch": scoreKindMatch, "scoreFactorAtomMatch": scoreFactorAtomMatch, "scoreLineOrderFactor": scoreLineOrderFactor,
+		"scoreRepoRankFactor": scoreRepoRankFactor, "scoreFileOrderFactor": scoreFileOrderFactor, "ScoreOffset": ScoreOffset,
+		"importantTermBoost": importantTermBoost, "lowPriorityFilePenalty": lowPriorityFilePenalty,
+	}
+}
